@@ -57,6 +57,14 @@ next:
 			int rc = KSI_Signature_parse(ctx, raw, len, &sig);
 			printf("P rc=%d\n", rc);
 			KSI_Signature_free(sig); free(raw);
+		} else if (!strcmp(tok[0], "PA") || !strcmp(tok[0], "PE") || !strcmp(tok[0], "PS")) {
+			/* typed parsers: aggregation PDU, extension PDU, signature (empty policy = structure only) + re-serialization */
+			size_t len; unsigned char *raw = hx_dec(tok[1], &len); int rc; unsigned char *ser = NULL; size_t sl = 0; int src = -1;
+			if (tok[0][1] == 'A') { KSI_AggregationPdu *p = NULL; rc = KSI_AggregationPdu_parse(ctx, raw, len, &p); if (rc == KSI_OK) src = KSI_AggregationPdu_serialize(p, &ser, &sl); KSI_AggregationPdu_free(p); }
+			else if (tok[0][1] == 'E') { KSI_ExtendPdu *p = NULL; rc = KSI_ExtendPdu_parse(ctx, raw, len, &p); if (rc == KSI_OK) src = KSI_ExtendPdu_serialize(p, &ser, &sl); KSI_ExtendPdu_free(p); }
+			else { KSI_Signature *p = NULL; rc = KSI_Signature_parseWithPolicy(ctx, raw, len, KSI_VERIFICATION_POLICY_EMPTY, NULL, &p); if (rc == KSI_OK) src = KSI_Signature_serialize(p, &ser, &sl); KSI_Signature_free(p); }
+			printf("%s rc=%d ser=%s\n", tok[0], rc, rc != KSI_OK ? "-" : src != KSI_OK ? "ERR" : (sl == len && memcmp(ser, raw, len) == 0) ? "same" : "diff");
+			KSI_free(ser); free(raw);
 		} else if (!strcmp(tok[0], "LOG")) {
 			KSI_CTX_setLoggerCallback(ctx, KSI_LOG_StreamLogger, fopen("/dev/null", "w"));
 			KSI_CTX_setLogLevel(ctx, atoi(tok[1]));
